@@ -117,6 +117,18 @@ def run_case(ns, mon, c):
         for a, b, na, nb in ((got[0], got[1], names[0], names[1]), (got[0], got[2], names[0], names[2])):
             if a is not None and b is not None and (a.shape != b.shape or not np.array_equal(a, b)):
                 viol.append(V(f"variants-disagree:{na}-vs-{nb}", f"{na} and {nb} return different matrices", geometry=geo, layout=layout))
+    # precomputed-indices protocol of the index-based variant
+    try:
+        cols_i, idx = ct.im2col(x, k, d, s, p, pv, return_indices=True)
+        cols_j = ct.im2col(x, k, d, s, p, pv, col_indices=idx)
+        img_i, idx2 = ct.col2im(np.array(cols_i, dtype=np.float64), (N, C, H, W), k, d, s, p, return_indices=True)
+        img_j = ct.col2im(np.array(cols_i, dtype=np.float64), (N, C, H, W), k, d, s, p, col_indices=idx)
+        counters["indices_protocol_checks"] = counters.get("indices_protocol_checks", 0) + 1
+        if not (np.array_equal(cols_i, ref_2d) and np.array_equal(cols_j, ref_2d) and np.allclose(img_i, img_j, rtol=0, atol=1e-12)
+                and all(np.array_equal(a_, b_) for a_, b_ in zip(idx, idx2))):
+            viol.append(V("im2col:indices-protocol", "im2col/col2im with return_indices / col_indices disagree with the plain calls", geometry=geo))
+    except Exception as e:
+        viol.append(V(f"im2col:indices-protocol:raises:argform={form}", f"return_indices / col_indices form raised {type(e).__name__}", geometry=geo, error=str(e)[:200]))
     # windows
     try:
         win = np.array(ct.extract_windows(x, k, s, p, d, pv))
